@@ -169,4 +169,9 @@ Section MapPanic.
             end
         end
     end.
+  (* HashMap::extract_if(sel), n items taken (or until the closure panics), then dropped *)
+  Definition m_extract_p (t : table kv) (sel : kv -> option bool) (n : nat) : res Map.result :=
+    it <- iter_new B kv t ;;
+    '(t1, acc, evs, unw) <- extract_loop_p (S (buckets kv t)) t it sel n [] [] ;;
+    Ok (t1, if unw then OutUnwind else OutList acc, evs).
 End MapPanic.
